@@ -146,4 +146,19 @@ let u_eofhyp c =
     end else Viol ("eof_hypothesis_false", "eof_lines_ok does not hold on the composed run")
   | _ -> Skip
 
-let () = register [ ("e2e", u_e2e); ("eofhyp", u_eofhyp) ]; panic_units := !panic_units @ [ ("e2e_panic", u_e2e_panic) ]
+(* the lexer link of FormatCrlfProofs.format_crlf_input (lex_crlf_commutes): the lexer cuts the CRLF-ed input into the tokens of the
+   input with CRLF-ed leading whitespace.  Checked on inputs without CR whose tokens have no LF in their content. *)
+let u_crlfhyp c =
+  if String.contains c.input '\r' then Skip else
+  match lex_segments (bytes_of_string c.input) with
+  | Some segs when List.length segs <= max_tokens ->
+    let to_crlf (s : string) = String.concat "\r\n" (String.split_on_char '\n' s) in
+    if List.exists (fun ((_, ct), _) -> String.contains (string_of_bytes ct) '\n') segs then Skip else
+    (match lex_segments (bytes_of_string (to_crlf c.input)) with
+     | Some segs2 ->
+       let expect = List.map (fun ((w, ct), ty) -> ((bytes_of_string (to_crlf (string_of_bytes w)), ct), ty)) segs in
+       if segs2 = expect then Ok_ else Viol ("lex_crlf_commutes_false", "the lexer cuts the CRLF-ed input differently")
+     | None -> Diff "lexer out of fuel")
+  | _ -> Skip
+
+let () = register [ ("e2e", u_e2e); ("eofhyp", u_eofhyp); ("crlfhyp", u_crlfhyp) ]; panic_units := !panic_units @ [ ("e2e_panic", u_e2e_panic) ]
